@@ -51,8 +51,23 @@ struct Table {
     bin: Vec<Vec<BinRow>>,
 }
 
+thread_local! { static SLOTS: std::cell::RefCell<Vec<Slot>> = std::cell::RefCell::new(Vec::new()); }
+/// the concrete slot of model slot k: numeric, or (VERIF_SM_KINDS=mixed) a mixture of textual,
+/// numeric and `$f<n>` names whose order interleaves (term.rs: naming mixed-a / mixed-b)
 fn sl(k: u32) -> Slot {
-    Slot::numeric(k)
+    SLOTS.with(|t| {
+        let mut t = t.borrow_mut();
+        if t.is_empty() {
+            let kinds = std::env::var("VERIF_SM_KINDS").unwrap_or_default();
+            if kinds.starts_with("mixed") {
+                let nm = verif_harness::term::Naming::new(&kinds, 64);
+                *t = (1..=64).map(|i| nm.slot(i)).collect();
+            } else {
+                *t = (0..64).map(Slot::numeric).collect();
+            }
+        }
+        t[k as usize]
+    })
 }
 fn canon(p: &Pairs) -> SlotMap {
     let v: Vec<(Slot, Slot)> = p.iter().map(|(a, b)| (sl(*a), sl(*b))).collect();
@@ -183,7 +198,8 @@ fn main() {
             let keys: Vec<u32> = { let mut v: Vec<u32> = pairs_of(&SlotMap::identity(&m.keys())).iter().map(|p| p.0).collect(); v.sort(); v };
             if keys != s.st.keys { errs.push("keys/identity".into()); }
             let mut kv: Vec<Slot> = m.keys_vec(); kv.sort();
-            if kv != s.st.keys.iter().map(|k| sl(*k)).collect::<Vec<_>>() { errs.push("keys_vec".into()); }
+            let mut want_kv: Vec<Slot> = s.st.keys.iter().map(|k| sl(*k)).collect(); want_kv.sort();
+            if kv != want_kv { errs.push("keys_vec".into()); }
             let mut vals: Vec<Slot> = m.values().iter().copied().collect(); vals.sort();
             let mut want_vals: Vec<Slot> = s.st.values.iter().map(|k| sl(*k)).collect(); want_vals.sort();
             if vals != want_vals { errs.push("values".into()); }
